@@ -26,7 +26,7 @@ def run(chk):
     exprs, meta = [], []
     for it in range(N):
         try:
-            model, X, cfg = U.fitted_model(rng, *((12, 6) if thorough else (8, 4)), kinds=("generic",))
+            model, X, cfg = U.fitted_model(rng, *((12, 6) if thorough else (8, 4)), kinds=("generic", "generic", "localized"))
             if it % 5 == 0:     # prefit basis
                 from pysensors.reconstruction import SSPOR
                 basis = impl.make_basis(cfg["basis"])
@@ -37,56 +37,71 @@ def run(chk):
         except Exception as e:
             chk.count("fit-rejected:" + type(e).__name__)
             continue
-        B = np.array(model.basis_matrix_)
-        n, m = B.shape
-        Bq = U.fr_mat(B)
-        if U.exact_rank(Bq) < m:
-            chk.count("BASIS-NOT-FULL-RANK-SKIP")
-            continue
-        ps = sorted({m, n, int(rng.integers(m, n + 1))})
-        okind = cfg["optimizer"]["kind"]
-        for p in ps:
-            model.set_number_of_sensors(p)
-            S = [int(i) for i in model.selected_sensors]
-            BS = [Bq[i] for i in S]
-            rankS = U.exact_rank(BS)
-            k = int(rng.integers(1, 4))
-            A0 = rng.integers(-12, 13, size=(k, m)) / 4.0
-            Xsig = A0 @ B.T                      # signals in the span (float product of dyadics: exact for these sizes? judged with tolerance)
-            case = {**cfg, "n_sensors": p, "selected": S, "coefficients": A0.tolist(), "basis_matrix": B.tolist()}
-            chk.case(case, nontrivial=n > m)
-            chk.count("opt:" + okind)
-            if rankS < m:
-                if okind in ("QR", "GQR"):
-                    chk.violation("impl", "default-ranking-rows-dependent", f"{okind}: the first {p} ranked rows of a full-column-rank basis have rank {rankS} < {m}", case)
-                else:
-                    chk.count("CONSTRAINED-RANK-DEFICIENT-SKIP")
+        for rnd in range(2):
+            if rnd == 1:
+                # the SAME object moves on (refit on other data of the same shape / fewer basis modes); exact recovery must hold again
+                try:
+                    if rng.random() < 0.5:
+                        X2 = X + rng.integers(-8, 9, size=X.shape) / 4.0
+                        impl.quiet(model.fit, X2, quiet=True, seed=int(rng.integers(0, 100)))
+                        cfg = {**cfg, "then": "fit(other data)", "X2": X2.tolist()}
+                    else:
+                        kk = int(rng.integers(1, np.array(model.basis_matrix_).shape[1] + 1))
+                        impl.quiet(model.update_n_basis_modes, kk, quiet=True)
+                        cfg = {**cfg, "then": f"update_n_basis_modes({kk})"}
+                except Exception as e:
+                    chk.count("transition-rejected:" + type(e).__name__)
+                    break
+            B = np.array(model.basis_matrix_)
+            n, m = B.shape
+            Bq = U.fr_mat(B)
+            if U.exact_rank(Bq) < m:
+                chk.count("BASIS-NOT-FULL-RANK-SKIP")
                 continue
-            cond = np.linalg.cond(B[S])
-            if cond > 1e6:
-                chk.count("ILLCOND-SKIP")
-                continue
-            try:
-                out = impl.quiet(model.predict, Xsig[:, S].copy())
-                one = impl.quiet(model.predict, Xsig[0, S].copy())
-            except Exception as e:
-                chk.violation("impl", "predict-raises", f"predict raised {type(e).__name__}: {e}", case)
-                continue
-            tol = 1e-9 * cond * cond * (1.0 + float(np.abs(Xsig).max()))
-            err = float(np.max(np.abs(out - Xsig)))
-            err1 = float(np.max(np.abs(one - Xsig[0])))
-            if err > tol or err1 > tol:
-                chk.violation("impl", "span-signal-not-recovered", f"{okind}, {p} sensors, {m} modes: reconstruction error {max(err, err1):.3g} exceeds {tol:.3g} "
-                              f"(cond {cond:.3g})", {**case, "observed": np.asarray(out).tolist(), "expected": Xsig.tolist()})
-            # exact: certificate for the exact measurements B_S a0 must be a0 itself (z from the exact solver), validated in Coq
-            a0 = [F(float(v)) for v in A0[0]]
-            yq = [sum(BS[i][t] * a0[t] for t in range(m)) for i in range(p)]
-            a, z = U.minnorm_lsq(BS, yq)
-            if a != a0:
-                chk.violation("correspondence", "c02-exact-solver-not-a0", "exact minimum-norm least squares of in-span measurements is not the generating coefficient vector", case)
-            yhat = [sum(Bq[i][t] * a[t] for t in range(m)) for i in range(n)]
-            exprs.append(f"check_predict {n} {m} (of_rows {C.cqmat(Bq)}) {C.cnatlist(S)} {C.cqlist(yq)} {C.cqlist(a0)} {C.cqlist(z)} {C.cqlist(yhat)}")
-            meta.append(case)
+            ps = sorted({m, n, int(rng.integers(m, n + 1))})
+            okind = cfg["optimizer"]["kind"]
+            for p in ps:
+                model.set_number_of_sensors(p)
+                S = [int(i) for i in model.selected_sensors]
+                BS = [Bq[i] for i in S]
+                rankS = U.exact_rank(BS)
+                k = int(rng.integers(1, 4))
+                A0 = rng.integers(-12, 13, size=(k, m)) / 4.0
+                Xsig = A0 @ B.T                      # signals in the span (float product of dyadics: exact for these sizes? judged with tolerance)
+                case = {**cfg, "n_sensors": p, "selected": S, "coefficients": A0.tolist(), "basis_matrix": B.tolist()}
+                chk.case(case, nontrivial=n > m)
+                chk.count("opt:" + okind)
+                if rankS < m:
+                    if okind in ("QR", "GQR"):
+                        chk.violation("impl", "default-ranking-rows-dependent", f"{okind}: the first {p} ranked rows of a full-column-rank basis have rank {rankS} < {m}", case)
+                    else:
+                        chk.count("CONSTRAINED-RANK-DEFICIENT-SKIP")
+                    continue
+                cond = np.linalg.cond(B[S])
+                if cond > 1e6:
+                    chk.count("ILLCOND-SKIP")
+                    continue
+                try:
+                    out = impl.quiet(model.predict, Xsig[:, S].copy())
+                    one = impl.quiet(model.predict, Xsig[0, S].copy())
+                except Exception as e:
+                    chk.violation("impl", "predict-raises", f"predict raised {type(e).__name__}: {e}", case)
+                    continue
+                tol = 1e-9 * cond * cond * (1.0 + float(np.abs(Xsig).max()))
+                err = float(np.max(np.abs(out - Xsig)))
+                err1 = float(np.max(np.abs(one - Xsig[0])))
+                if err > tol or err1 > tol:
+                    chk.violation("impl", "span-signal-not-recovered", f"{okind}, {p} sensors, {m} modes: reconstruction error {max(err, err1):.3g} exceeds {tol:.3g} "
+                                  f"(cond {cond:.3g})", {**case, "observed": np.asarray(out).tolist(), "expected": Xsig.tolist()})
+                # exact: certificate for the exact measurements B_S a0 must be a0 itself (z from the exact solver), validated in Coq
+                a0 = [F(float(v)) for v in A0[0]]
+                yq = [sum(BS[i][t] * a0[t] for t in range(m)) for i in range(p)]
+                a, z = U.minnorm_lsq(BS, yq)
+                if a != a0:
+                    chk.violation("correspondence", "c02-exact-solver-not-a0", "exact minimum-norm least squares of in-span measurements is not the generating coefficient vector", case)
+                yhat = [sum(Bq[i][t] * a[t] for t in range(m)) for i in range(n)]
+                exprs.append(f"check_predict {n} {m} (of_rows {C.cqmat(Bq)}) {C.cnatlist(S)} {C.cqlist(yq)} {C.cqlist(a0)} {C.cqlist(z)} {C.cqlist(yhat)}")
+                meta.append(case)
     files = []
     for i in range(0, len(exprs), 60):
         body = ("From Coq Require Import List Arith QArith Qcanon. Import ListNotations.\nFrom PS Require Import LA.Sums LA.Gram Recon.Predict.\n"
